@@ -64,6 +64,27 @@ type Deep4 struct {
 	X0 int `db:"x0"`
 }
 
+type Home struct {
+	ID   int    `db:"home_id"`
+	City string `db:"home_city"`
+}
+
+type Work struct {
+	ID   int    `db:"work_id"`
+	City string `db:"work_city"`
+}
+
+type Contact struct {
+	Home
+	Work
+	N string `db:"n"`
+}
+
+type AutoID struct {
+	ID  int    `db:"id,omitempty"`
+	Seq string `db:"seq,omitempty"`
+}
+
 type Omit struct {
 	A int     `db:"a,omitempty"`
 	B string  `db:"b, omitempty"`
@@ -214,7 +235,7 @@ type zooEntry struct {
 // zooSamples: one zero value of every type, used as Prepare samples.
 var zooSamples = []zooEntry{
 	{"Person", Person{}}, {"Address", Address{}}, {"Manager", Manager{}}, {"Embed", Embed{}},
-	{"EmbedPtr", EmbedPtr{}}, {"Deep", Deep{}}, {"Deep4", Deep4{}}, {"Omit", Omit{}}, {"PtrFields", PtrFields{}},
+	{"EmbedPtr", EmbedPtr{}}, {"Deep", Deep{}}, {"Deep4", Deep4{}}, {"Contact", Contact{}}, {"AutoID", AutoID{}}, {"Omit", Omit{}}, {"PtrFields", PtrFields{}},
 	{"Quoted", Quoted{}}, {"Unicode", Unicode{}}, {"Numeric", Numeric{}}, {"NoTags", NoTags{}},
 	{"Unexported", Unexported{}}, {"BadFlag", BadFlag{}}, {"BadEmpty", BadEmpty{}}, {"BadQuote", BadQuote{}},
 	{"BadChar", BadChar{}}, {"BadDigit", BadDigit{}}, {"DupTag", DupTag{}}, {"DupEmbed", DupEmbed{}},
@@ -226,7 +247,7 @@ var zooSamples = []zooEntry{
 }
 
 // good types for statement generation (Prepare succeeds with them)
-var goodStructs = []string{"Person", "Address", "Manager", "Embed", "EmbedPtr", "Deep", "Deep4", "Omit", "PtrFields", "Quoted", "Unicode", "Numeric", "Priced", "TaggedEmbed", "EmbedUnexported", "EmbedNonStruct", "Mixed"}
+var goodStructs = []string{"Person", "Address", "Manager", "Embed", "EmbedPtr", "Deep", "Deep4", "Contact", "AutoID", "AutoID", "Omit", "PtrFields", "Quoted", "Unicode", "Numeric", "Priced", "TaggedEmbed", "EmbedUnexported", "EmbedNonStruct", "Mixed"}
 var goodMaps = []string{"M", "IntMap", "KM"}
 var goodSlices = []string{"S", "IntSlice", "StrSlice", "PersonSlice"}
 
